@@ -32,6 +32,7 @@ DEF_TEMPLATE = [['d', 31001, [['e', 1], ['e', 2], ['e', 3]]],
                 ['d', 31001, [['s', 300004]]],
                 ['d', 31001, [['s', 300003], ['o', 205064], ['d', 31001, [['e', 30]]]]]]
 
+LOCAL_CLASH_IDS = [49193, 49194, 55003, 62190, 62191, 63190]
 NUM_UNITS = ['NUMERIC', 'M', 'K', 'PA', 'DEGREE TRUE', 'M S-1', 'KG M-2', '%', 'S']
 MIN_VERSION = 13
 NEEDS_POOL = False
@@ -230,8 +231,9 @@ def gen_data_message(rng, version, reg_b, reg_d, ncep_forms, use_defs=True, top=
             subsets.append(pool._merge_keep_factors(tree, rec, first, s))
         else:
             subsets.append(pool.gen_raws(rng, tree))
-    spec = {'edition': rng.choice([3, 4, 4]), 'version': version, 'local_version': 0,
-            'centre': rng.choice([0, 7]), 'subcentre': 0,
+    local = use_defs and version == 13 and any(int(k) in LOCAL_CLASH_IDS for k in eb) and rng.random() < 0.6
+    spec = {'edition': rng.choice([3, 4, 4]), 'version': version, 'local_version': 1 if local else 0,
+            'centre': 98 if local else rng.choice([0, 7]), 'subcentre': 0,
             'category': rng.choice([0, 2, 102, 243, 255]), 'subcategory': 0, 'local_subcategory': rng.randint(0, 9),
             'update': 0, 'date': [2021, rng.randint(1, 12), rng.randint(1, 28), rng.randint(0, 23), 0, 0],
             'sec2': None, 'pads': {}, 'compressed': comp, 'template': nodes, 'subsets': subsets,
@@ -239,6 +241,7 @@ def gen_data_message(rng, version, reg_b, reg_d, ncep_forms, use_defs=True, top=
     msg, truth = bufrgen.write_message(spec)
     return {'hex': msg.hex(), 'truth': {'subsets': truth['subsets'], 'infos': truth['infos']},
             'version': version, 'top': top, 'extra_b': eb if use_defs else {}, 'extra_d': ed if use_defs else {},
+            'local_tables': bool(local),
             'uses_ncep': any(i in ncep_forms for i in top) or
             any(i in ncep_forms for s in _reach(top, reg_d) for i in reg_d[s])}
 
@@ -274,6 +277,9 @@ def _gen_plan(family, rng, tier):
     if family == 'c08-def':
         sub = rng.choice(['c20', 'c20-redef', 'c20-redef', 'c20-ncep'])
     vs = rng.sample(versions(), rng.randint(1, 2))
+    clash = rng.random() < 0.15         # sessions in which a bundled local table defines the same ids
+    if clash:
+        vs[0] = 13
     reg_b, reg_d, ncep_forms = {}, {}, set()
     items = []
     cached = set()
@@ -309,6 +315,8 @@ def _gen_plan(family, rng, tier):
                 continue
             for _try in range(20):
                 eid = rng.randint(48, 63) * 1000 + rng.randint(0, 255)
+                if clash and rng.random() < 0.5:
+                    eid = rng.choice(LOCAL_CLASH_IDS)       # also defined by a bundled local table (98_0/1)
                 if eid not in reg_b and eid not in used_ids:
                     break
             used_ids.add(eid)
@@ -492,7 +500,7 @@ def execute(plan):
             # holding the registry, each in its own pristine process, no definition message processed
             tmp = tempfile.mkdtemp(prefix='verif-def-')
             for i, it in enumerate(plan['items']):
-                if it['kind'] != 'new' or it.get('uses_ncep'):
+                if it['kind'] != 'new' or it.get('uses_ncep') or it.get('local_tables'):
                     continue
                 root = make_tables_root(os.path.join(tmp, 'r%d' % i), it['version'], it['extra_b'], it['extra_d'])
                 tr['file'][str(i)] = core.run_in_child(_file_decode, {'root': root, 'hex': it['hex']}, 60)
